@@ -243,6 +243,30 @@ def path_text(k: tuple, root: str = 'task') -> str:
     return t
 
 
+FILTER_MARK = 'filter:'
+
+
+def is_filter_atom(text: str) -> bool:
+    return text.startswith(FILTER_MARK) or text.startswith('not ' + FILTER_MARK)
+
+
+def element_filter(atom: ast.AST, bound: Set[str]) -> Optional[str]:
+    """text of `atom` when it is a test of the elements themselves: every name in it is a bound element variable (besides
+    len/abs/..) and it reads an attribute of one - `len(t.successors) == 0`, `t.estimate`, `t.end is not None`.
+    Leaf tests (t.children) are handled before and never get here."""
+    names = [n for n in ast.walk(atom) if isinstance(n, ast.Name)]
+    free = [n.id for n in names if n.id not in bound and n.id not in ('len', 'abs', 'bool', 'float', 'int', 'max', 'min')]
+    if free or not names:
+        return None
+    if not any(isinstance(n, ast.Attribute) and isinstance(n.value, ast.Name) and n.value.id in bound for n in ast.walk(atom)):
+        return None
+    if any(isinstance(n, (ast.Call,)) and not (isinstance(n.func, ast.Name) and n.func.id in ('len', 'abs', 'bool', 'float', 'int',
+                                                                                              'max', 'min'))
+           for n in ast.walk(atom)):
+        return None
+    return src(atom)[:70]
+
+
 class RelEval:
     """relation-path evaluation of the task collections built inside one function, relative to its task parameter.
 
@@ -325,6 +349,14 @@ class RelEval:
             if lt and isinstance(lt[0], ast.Name) and (lt[0].id in env or lt[0].id == self.task_param):
                 cur = env.get(lt[0].id) or {(): list(UNCOND)}
                 env[lt[0].id] = _ext(cur, 'leaf?' if lt[1] else 'nonleaf?')
+                continue
+            ft = element_filter(a, set(env))
+            if ft is not None:
+                # a test of the bound tasks themselves narrows what is drawn - unless it only says that the very collection
+                # (object) the elements are drawn from is not empty (not None): `if t.predecessors: for p in t.predecessors`
+                nt, et = none_test(a, p), empty_test(a, p)
+                x = nt[0] if nt and not nt[1] else (et[0] if et and not et[1] else None)
+                pend.append(((FILTER_MARK if p else 'not ' + FILTER_MARK) + ft, x))
                 continue
             nt = none_test(a, p)
             if nt:
@@ -456,6 +488,7 @@ class Fold:
         self.acc = None
         self.defs = []            # in-loop cfg nodes defining the accumulator
         self.store = None
+        self.falsy = None         # ast of a first-element test done by truthiness of the accumulator (`acc or T`, `if not acc`)
 
 
 def _is_inf(e: ast.AST) -> Optional[int]:
@@ -534,6 +567,23 @@ def recognise_fold(ctx, f: Func, store_stmt: ast.stmt, value: ast.AST) -> Fold:
             if m:
                 fo.defs.append(d.node)
                 continue
+            # `op(acc or T, T)` / `op(acc if acc else T, T)`: first element and fold in one, the "unset" test by truthiness
+            fm = None
+            for opn in ('max', 'min'):
+                for pat in (f"{opn}({acc} or $t, $u)", f"{opn}($u, {acc} or $t)", f"{opn}({acc} if {acc} else $t, $u)",
+                            f"{opn}($u, {acc} if {acc} else $t)", f"{opn}($t if not {acc} else {acc}, $u)",
+                            f"{opn}($u, $t if not {acc} else {acc})"):
+                    fm = match(pat, val)
+                    if fm and same(fm['t'], fm['u']):
+                        _set_op(fo, opn, fm['t'], d.stmt)
+                        fo.falsy = next((a for a in val.args if not same(a, fm['t'])), val)
+                        break
+                    fm = None
+                if fm:
+                    break
+            if fm:
+                fo.defs.append(d.node)
+                continue
             # plain `acc = T` : first element (under `acc is None`) or comparison form (under T > acc / T < acc),
             # or both at once (`if acc is None or T < acc`)
             own = [(t, p) for t, p in conds if cfg.can_reach(cfg.node_containing(t) or hdr, hdr) and
@@ -542,6 +592,9 @@ def recognise_fold(ctx, f: Func, store_stmt: ast.stmt, value: ast.AST) -> Fold:
             def classify(t, p):
                 nt = none_test(t, p)
                 if nt and isinstance(nt[0], ast.Name) and nt[0].id == acc and nt[1]:
+                    return {'first'}
+                if isinstance(t, ast.Name) and t.id == acc and not p:
+                    falsy_tests.append(t)           # `if not acc:` - "unset" decided by truthiness
                     return {'first'}
                 if isinstance(t, ast.UnaryOp) and isinstance(t.op, ast.Not):
                     return classify(t.operand, not p)
@@ -567,8 +620,11 @@ def recognise_fold(ctx, f: Func, store_stmt: ast.stmt, value: ast.AST) -> Fold:
                 return set()
 
             kinds = set()
+            falsy_tests: list = []
             for t, p in own:
                 kinds |= classify(t, p)
+            if falsy_tests:
+                fo.falsy = falsy_tests[0]
             ops = kinds & {'max', 'min'}
             if len(ops) == 1:
                 kind = next(iter(ops))
@@ -701,3 +757,192 @@ def bind_args(call: ast.Call, callee: Func) -> Dict[str, ast.AST]:
         if k.arg in params:
             out[k.arg] = k.value
     return out
+
+
+# ---------------------------------------------------------------------------------------------------------------------
+# hoisting of non-baseline helpers that are called inside an expression and consist of statements plus one final return
+# (sa.normalize splices only calls that are a whole statement `x = h(..)` / `h(..)`, and value helpers without loops)
+_SPLICE_STMTS = (ast.Assign, ast.AugAssign, ast.AnnAssign, ast.Expr, ast.For, ast.If, ast.Pass, ast.Raise, ast.Break,
+                 ast.Continue)
+
+
+class _Sub(ast.NodeTransformer):
+    def __init__(self, env: Dict[str, ast.AST], ren: Dict[str, str]):
+        self.env, self.ren = env, ren
+
+    def visit_Name(self, n: ast.Name):
+        if n.id in self.ren:
+            return ast.copy_location(ast.Name(id=self.ren[n.id], ctx=n.ctx), n)
+        if n.id in self.env and isinstance(n.ctx, ast.Load):
+            import copy
+            return ast.copy_location(copy.deepcopy(self.env[n.id]), n)
+        return n
+
+    def visit_Lambda(self, n):
+        return n                    # helpers with lambdas capturing renamed names are rejected before
+
+
+def _spliceable(h: Func) -> bool:
+    fd = h.node
+    if not isinstance(fd, ast.FunctionDef) or fd.decorator_list and h.kind not in ('static',):
+        return False
+    a = fd.args
+    if a.vararg or a.kwarg or a.kwonlyargs:
+        return False
+    body = [s for s in fd.body if not (isinstance(s, ast.Expr) and isinstance(s.value, ast.Constant))]
+    if len(body) < 2 or not isinstance(body[-1], ast.Return) or body[-1].value is None:
+        return False
+    for s in body[:-1]:
+        for n in ast.walk(s):
+            if isinstance(n, (ast.Return, ast.Yield, ast.YieldFrom, ast.Lambda, ast.FunctionDef, ast.ClassDef, ast.Try, ast.With,
+                              ast.While, ast.Global, ast.Nonlocal, ast.NamedExpr)):
+                return False
+            if isinstance(n, ast.stmt) and not isinstance(n, _SPLICE_STMTS):
+                return False
+    for n in ast.walk(fd):
+        if isinstance(n, ast.Attribute) and unmangle(n.attr) == h.name or isinstance(n, ast.Name) and n.id == h.name:
+            return False            # recursive
+    return True
+
+
+def _path_to(root: ast.AST, target: ast.AST) -> Optional[List[ast.AST]]:
+    if root is target:
+        return [root]
+    for ch in ast.iter_child_nodes(root):
+        p = _path_to(ch, target)
+        if p is not None:
+            return [root] + p
+    return None
+
+
+def hoist_helpers(prog, hosts: List[Func], cls: str, mod, baseline: Set[str], rounds: int = 6) -> List[str]:
+    """in-place: `S[.. self.h(args) ..]` -> `<body of h, locals renamed>; S[.. <returned expr> ..]` for helpers h of the same
+    class / module that are not functions of the reference tree.  Only when the call is evaluated before anything else with
+    an effect in S (no other call beside it), so the order of effects is kept.  Returns a log."""
+    import copy
+    log: List[str] = []
+    counter = [0]
+
+    def resolve(call: ast.Call, host: Func) -> Optional[Func]:
+        fn = call.func
+        h = None
+        if isinstance(fn, ast.Attribute) and isinstance(fn.value, ast.Name) and fn.value.id in (host.self_name, cls):
+            h = prog.find_method(cls, unmangle(fn.attr))
+        elif isinstance(fn, ast.Name):
+            h = prog.funcs.get(mod.name + '.' + fn.id)
+        if h is None or h.module is not mod or h.qual in baseline or h.qual == host.qual or h.kind not in ('method', 'static', 'function'):
+            return None
+        return h if _spliceable(h) else None
+
+    def first_exprs(st: ast.stmt) -> List[ast.AST]:
+        if isinstance(st, (ast.Expr, ast.Assign, ast.AugAssign, ast.AnnAssign, ast.Return)):
+            return [st.value] if st.value is not None else []
+        if isinstance(st, ast.For):
+            return [st.iter]
+        if isinstance(st, ast.If):
+            return [st.test]
+        return []
+
+    def try_stmt(stmts: List[ast.stmt], i: int, host: Func) -> bool:
+        st = stmts[i]
+        for root in first_exprs(st):
+            calls = [n for n in ast.walk(root) if isinstance(n, ast.Call)]
+            for c in calls:
+                h = resolve(c, host)
+                if h is None:
+                    continue
+                path = _path_to(root, c)
+                if path is None or any(isinstance(p, (ast.Lambda, ast.IfExp, ast.BoolOp, ast.ListComp, ast.SetComp, ast.DictComp,
+                                                      ast.GeneratorExp)) for p in path[:-1]):
+                    continue
+                inside = {id(n) for n in ast.walk(c)}
+                anc = {id(p) for p in path}
+                if any(id(o) not in inside and id(o) not in anc for o in calls):
+                    continue
+                if any(isinstance(n, ast.Call) for a in c.args for n in ast.walk(a)) or c.keywords or \
+                        any(isinstance(a, ast.Starred) for a in c.args):
+                    continue
+                params = list(h.params)
+                env: Dict[str, ast.AST] = {}
+                if h.kind == 'method':
+                    if host.self_name is None or not (isinstance(c.func, ast.Attribute) and isinstance(c.func.value, ast.Name)
+                                                      and c.func.value.id == host.self_name):
+                        continue
+                    env[params[0]] = ast.Name(id=host.self_name, ctx=ast.Load())
+                    params = params[1:]
+                if len(params) != len(c.args):
+                    continue
+                if counter[0] >= 24:
+                    return False
+                counter[0] += 1
+                tag = f"__s{counter[0]}"
+                stored = {n.id for n in ast.walk(h.node) if isinstance(n, ast.Name) and isinstance(n.ctx, ast.Store)}
+                pre: List[ast.stmt] = []
+                ren = {n: n + tag for n in stored}
+                for p, a in zip(params, c.args):
+                    simple = isinstance(a, (ast.Name, ast.Constant)) or (isinstance(a, ast.Attribute) and isinstance(a.value, ast.Name))
+                    if simple and p not in stored:
+                        env[p] = a
+                    else:
+                        ren[p] = p + tag
+                        pre.append(ast.copy_location(ast.Assign(targets=[ast.Name(id=p + tag, ctx=ast.Store())],
+                                                                value=copy.deepcopy(a)), st))
+                body = [s for s in h.node.body if not (isinstance(s, ast.Expr) and isinstance(s.value, ast.Constant))]
+                tr = _Sub(env, ren)
+                block = [tr.visit(copy.deepcopy(s)) for s in body[:-1]]
+                value = tr.visit(copy.deepcopy(body[-1].value))
+                # replace the call by the returned expression
+                parent = path[-2] if len(path) > 1 else None
+                if parent is None:
+                    if isinstance(st, ast.For):
+                        st.iter = value
+                    elif isinstance(st, ast.If):
+                        st.test = value
+                    else:
+                        st.value = value
+                else:
+                    done = False
+                    for fld, old in ast.iter_fields(parent):
+                        if old is c:
+                            setattr(parent, fld, value)
+                            done = True
+                        elif isinstance(old, list):
+                            for k, x in enumerate(old):
+                                if x is c:
+                                    old[k] = value
+                                    done = True
+                    if not done:
+                        continue
+                new = pre + block
+                for s in new:
+                    ast.fix_missing_locations(s)
+                stmts[i:i] = new
+                log.append(f"{host.qual}: hoisted helper {h.qual} out of `{type(st).__name__}` statement")
+                return True
+        return False
+
+    def walk_body(stmts: List[ast.stmt], host: Func) -> bool:
+        i = 0
+        changed = False
+        while i < len(stmts):
+            st = stmts[i]
+            if isinstance(st, (ast.FunctionDef, ast.ClassDef)):
+                i += 1
+                continue
+            if try_stmt(stmts, i, host):
+                changed = True
+                continue            # the same statement again (it moved forward); further helpers may be inside
+            for fld in ('body', 'orelse', 'finalbody'):
+                sub = getattr(st, fld, None)
+                if isinstance(sub, list) and sub and isinstance(sub[0], ast.stmt):
+                    changed |= walk_body(sub, host)
+            i += 1
+        return changed
+
+    for host in hosts:
+        if not isinstance(host.node, ast.FunctionDef):
+            continue
+        for _ in range(rounds):
+            if not walk_body(host.node.body, host):
+                break
+    return log
